@@ -84,6 +84,13 @@ func (c *Ctx) evalArgs(st *State, x *ast.CallExpr, sig *types.Signature) []Val {
 		np = sig.Params().Len()
 	}
 	for i, a := range x.Args {
+		if !c.hasValidType(a) && selectorChain(a) {
+			// an argument that reads generated code absent from the tree (node.Labels ...): passed as an unmodelled value;
+			// a nil dereference inside the chain is not modelled
+			c.trusted["arguments whose type is missing from the tree (generated code) are unmodelled values; a nil dereference while reading them is not considered"] = true
+			out = append(out, Opaque{types.Typ[types.Invalid]})
+			continue
+		}
 		v := c.eval(st, a)
 		if sig != nil {
 			var pt types.Type
@@ -120,6 +127,19 @@ func (c *Ctx) evalArgs(st *State, x *ast.CallExpr, sig *types.Signature) []Val {
 		}
 	}
 	return out
+}
+
+// selectorChain: x, x.f, x.f.g, (x).f - no calls, no indexing.
+func selectorChain(e ast.Expr) bool {
+	switch x := e.(type) {
+	case *ast.Ident:
+		return true
+	case *ast.ParenExpr:
+		return selectorChain(x.X)
+	case *ast.SelectorExpr:
+		return selectorChain(x.X)
+	}
+	return false
 }
 
 func (c *Ctx) scalarOrModelled(t types.Type) bool {
@@ -607,7 +627,7 @@ func (c *Ctx) evalBuiltin(st *State, x *ast.CallExpr, name string) Val {
 				h := c.mapHeap(st, fam, c.idxSort())
 				l := c.name(Select(h, s.T), "maplen")
 				st.assume(c, c.ile(c.idx(0), l))
-				return Scalar{l, tInt}
+				return Scalar{Ite(Eq(s.T, Term{"0", SInt}), c.idx(0), l), tInt} // len of a nil map is 0
 			}
 			if _, ok := at.Underlying().(*types.Slice); ok {
 				return Scalar{c.idx(0), tInt}
@@ -762,6 +782,15 @@ func (c *Ctx) evalAppend(st *State, x *ast.CallExpr) Val {
 	}
 	var elems []Val
 	for _, a := range x.Args[1:] {
+		if !c.hasValidType(a) && selectorChain(a) && (isStringType(sl.Elem()) || isIntType(sl.Elem()) || isBoolType(sl.Elem())) {
+			// an appended element read from generated code absent from the tree: an arbitrary value of the element type
+			c.trusted["an operand whose type is missing from the tree (generated code) is an arbitrary value of the other operand's type"] = true
+			var facts []Term
+			v := c.fresh(sl.Elem(), "untyped", &facts)
+			st.assume(c, And(facts...))
+			elems = append(elems, v)
+			continue
+		}
 		elems = append(elems, c.coerce(st, c.eval(st, a), sl.Elem()))
 	}
 	if len(elems) == 0 {
